@@ -241,11 +241,13 @@ func (m *Machine) Run(args []string, o RunOpts) *Result {
 		res.TimedOut = true
 		// quiescence test: two CPU samples of the whole process group 2 s apart
 		// (CPU time of the whole process group in clock ticks; a parked Go process still runs
-		// its background timers now and then, so allow 2 ticks = 20 ms over 3 s)
+		// its background timers now and then - on a terminal the UI redraws every second - so
+		// allow 15 ticks = 150 ms over 3 s, i.e. 5 % of one core; a process that computes or
+		// copies uses a multiple of that)
 		c1, _ := groupCPU(pid)
 		time.Sleep(3 * time.Second)
 		c2, n := groupCPU(pid)
-		res.Hang = c2-c1 <= 2 && n <= 1
+		res.Hang = c2-c1 <= 15 && n <= 1
 		_ = syscall.Kill(pid, syscall.SIGQUIT)
 		select {
 		case err = <-done:
